@@ -46,12 +46,23 @@ Round 11 (third hunt):
   E27 (L / mol storage) an enzyme moved by mass: nanograms arrive as stated                          C02 C03
   E28 (zero-volume solids) a solid as the diluent of create_solution_from; fill_to / dilute with a
       solid state a mass; (any configuration) a recipe create_container step states its contents     ValueError / stated     C12 C19
+Round 12 (fourth hunt):
+  E29 a real loss after a long stage of single-well dispenses out of a carboy; (mol storage) a loss of
+      100 nmol to waste after a 384-to-384 stamp; the stages add up to the whole recipe              ValueError / additive   C09
+  E30 what "own concentration" means: a small real spike or dilution is carried out, an unreachable
+      target refused (pure enzyme at 150 %w/w; 0.9 % above 10 fmol), the own concentration accepted
+      whatever the diluent named, next to a heavy co-solute, as reported, from a diluent already at it  C12 C03 C11 C18
+  E31 an enzyme stated in moles; '1 U/3 g' is '3 g/1 U'; '' and [] are refused with ValueError; a
+      trace enzyme stated by mass in a total by mass                                                 ValueError / equal / met   C14 C06 C05 C03
+  E32 a selection of no wells: transfer into it returns new objects, out of it bakes like the eager
+      call; default names and None keywords of a recipe create_solution step; plate observers answer
+      in their own dimension, by default in the configured unit, a substance listed twice once       C04 C08 C10
 """
 from __future__ import annotations
 
 import math
 
-N_FAMILIES = 28
+N_FAMILIES = 32
 
 
 def edges(rng, case, idx):
@@ -82,6 +93,10 @@ def edges(rng, case, idx):
     only = (case.get('params') or {}).get('only')
     fam = only[idx % len(only)] if only else idx % N_FAMILIES
     M.count('EDGE')
+    # the families that bake large plates or long recipes run only in the checks whose property they are about
+    if case['prop'] not in {16: ('C09',), 20: ('C09', 'C18', 'C17'), 28: ('C09', 'C18')}.get(fam, (case['prop'],)):
+        M.count('EDGE.skipped_expensive_family_of_another_property')
+        return
     with M.active(case):
         if fam == 0:
             # ---- E1
@@ -800,6 +815,18 @@ def edges(rng, case, idx):
                         viol(['C12', 'C03', 'C19'], 'C12:diluent_without_volume_accepted', {'target': target, 'total': tot, 'instructions': (res[1].instructions or '')[-120:]})
                     elif not isinstance(exc, ValueError):
                         viol(['C12', 'C03'], f'C12:refusal_not_ValueError:diluent_without_volume:{type(exc).__name__}', {'target': target})
+            if zero_volume:
+                M.bucket(case['prop'] + '/edge/E28_transfer_out_of_a_container_without_volume')
+                for label, mk in (('emptied_and_refilled', lambda: C.transfer(C('jar', initial_contents=[(salt, '10 g')]), C.transfer(C('vial', initial_contents=[(water, '1 mL')]), C('waste'), '1 mL')[0], '5 g')[1]),
+                                  ('zero_entry', lambda: C('vial', initial_contents=[(water, '0 mL'), (salt, '5 g')]))):
+                    vial, exc = attempt(mk)
+                    if exc is not None:
+                        continue
+                    res, exc = attempt(lambda: C.transfer(vial, C('dest'), '2 g'))
+                    if exc is None:
+                        line = (res[1].instructions or '').splitlines()[-1]
+                        if not any(token_matches(t_, {'g': 2.0}) and t_[2] == 'g' for t_ in tokens(line)):
+                            viol(['C19'], 'C19:transfer_amount_wrong:no_volume_but_a_liquid_listed', {'line': line, 'moved_g': 2.0, 'source': label})
             M.bucket(case['prop'] + '/edge/E28_fill_and_dilute_with_a_solid_state_what_was_added' + ('/zero_volume' if zero_volume else ''))
             c = C('c', '1 L', [(water, rng.choice(['1 mL', '2 mL', '5 mL']))])
             for label, fn, solv in (('fill_to', lambda: c.fill_to(suc, rng.choice(['8 g', '12 g', '6.5 g'])), suc),
@@ -841,3 +868,232 @@ def edges(rng, case, idx):
                 if not (ok_w and ok_s):
                     viol(['C19'], 'C19:recipe_step_instruction_wrong:create_container:initial_contents', {'instruction': text, 'contents': [f'{ml} mL H2O', f'{g_} g NaCl']})
             M.note_nontrivial(case['prop'], ('E28', idx))
+        elif fam == 28:
+            # ---- E29
+            M.bucket(case['prop'] + '/edge/E29_a_real_loss_after_a_long_stage')
+            carboy = C('carboy', '10 L', [(water, rng.choice(['5 L', '8 L']))])
+            plate = pp.Plate('plate', '300 uL', rows=2, columns=3)      # (a small plate: what matters is the number of steps)
+            waste = C('waste')
+            r = pp.Recipe().uses(carboy, plate, waste)
+            r.start_stage('dispense')
+            wells_ = [(i_, j_) for i_ in range(1, 3) for j_ in range(1, 4)]
+            for k_ in range(rng.choice([650, 700])):
+                r.transfer(carboy, plate[wells_[k_ % 6]], '0.3 uL')
+            r.transfer(plate[1, 1], waste, '0.0025 uL')
+            r.end_stage('dispense')
+            _, exc = attempt(lambda: r.bake())
+            if exc is None:
+                lost = waste_amount = r.results['waste'].contents.get(water, 0.0) if hasattr(r, 'results') else None
+                res, exc = attempt(lambda: r.get_substance_used(water, 'dispense', 'umol', destinations=[carboy, plate]))
+                if exc is None or not isinstance(exc, ValueError):
+                    viol(['C09'], 'C09:net_decrease_not_refused_with_ValueError:after_a_long_stage', {'steps': len(r.steps), 'lost_storage_units': lost, 'answer': res, 'exc': repr(exc)[:100]})
+                res, exc = attempt(lambda: r.get_substance_used(water, 'dispense', 'umol', destinations=[carboy, plate, waste]))
+                if exc is not None or abs(res) > 1e-3:
+                    viol(['C09'], 'C09:closed_system_not_zero:after_a_long_stage', {'answer': res, 'exc': repr(exc)[:100]})
+            M.bucket(case['prop'] + '/edge/E29_a_stamp_and_a_loss_to_waste')
+            dye = S.solid('dye', 350.0)
+            stock = C.create_solution(dye, water, concentration='10 mM', total_quantity='50 mL', name='stock')
+            p1, p2 = pp.Plate('p1', '100 uL', rows=16, columns=24), pp.Plate('p2', '100 uL', rows=16, columns=24)
+            waste = C('waste')
+            r = pp.Recipe().uses(stock, waste, p1, p2)
+            r.start_stage('fill')
+            r.transfer(stock, p1, '40 uL')
+            r.end_stage('fill')
+            r.start_stage('stamp')
+            r.transfer(p1, p2, '20 uL')
+            r.transfer(p2['A:1'], waste, rng.choice(['10 uL', '5 uL', '20 uL']))
+            r.end_stage('stamp')
+            _, exc = attempt(lambda: r.bake())
+            if exc is None:
+                res, exc = attempt(lambda: r.get_substance_used(dye, 'stamp', 'nmol'))
+                if exc is None or not isinstance(exc, ValueError):
+                    viol(['C09', 'C18'], 'C09:net_decrease_not_refused_with_ValueError:stamp_then_loss', {'answer': res, 'exc': repr(exc)[:100]})
+                f_, ef = attempt(lambda: r.get_substance_used(dye, 'fill', 'nmol', destinations=[p1, p2, waste]))
+                s_, es = attempt(lambda: r.get_substance_used(dye, 'stamp', 'nmol', destinations=[p1, p2, waste]))
+                a_, ea = attempt(lambda: r.get_substance_used(dye, 'all', 'nmol', destinations=[p1, p2, waste]))
+                if ef is None and es is None and ea is None and abs(f_ + s_ - a_) > 1.0:
+                    viol(['C09'], 'C09:stages_do_not_add_up_to_the_whole_recipe', {'fill': f_, 'stamp': s_, 'all': a_})
+            M.note_nontrivial(case['prop'], ('E29', idx))
+        elif fam == 29:
+            # ---- E30
+            M.bucket(case['prop'] + '/edge/E30_a_small_real_request_is_carried_out')
+            weak = C.create_solution(salt, water, concentration='1 uM', total_quantity='1 L')
+            strong = C.create_solution(salt, water, concentration='2 M', total_quantity='10 mL')
+            for target in ('1.002 uM', '1.001 uM', '1.01 uM'):
+                res, exc = attempt(lambda: C.create_solution_from(weak, salt, target, strong, '500 mL'))
+                if exc is None:
+                    got = R.concentration(res[2].contents, salt, 'mol', 'L')
+                    want = R.parse_concentration(target)[0]
+                    if abs(got - want) > 1e-5 * want + 4 * cf.q * cf.vol_prefix * 2.0 / 0.5:      # (+ the strong portion's volume, to a few stored digits)
+                        viol(['C12', 'C03'], 'C12:a_real_solvent_portion_is_swallowed', {'target': target, 'got_mol_per_L': got})
+                elif not isinstance(exc, ValueError):
+                    viol(['C12'], f'C12:refusal_not_ValueError:{type(exc).__name__}', {'target': target})
+            lig = S.solid('ligand', 500.0)
+            for held, ml in (('0.01 pmol', 1), ('0.001 pmol', 1), ('0.02 pmol', 2)):
+                tube = C('tube', '20 mL', [(lig, held), (water, f'{ml} mL')])
+                now = R.concentration(tube.contents, lig, 'mol', 'L')
+                if not tube.contents.get(lig):
+                    continue            # (below what the storage unit resolves)
+                quantum_rel = cf.q / tube.contents[lig]            # one stored digit of the ligand, relative
+                if quantum_rel > 0.2:
+                    continue
+                lower, higher = now * (1 - 1.6 * quantum_rel), now * (1 + 1.6 * quantum_rel)
+                res, exc = attempt(lambda: tube.dilute(lig, f'{lower * 1e12:.6g} pmol/L', water))
+                if exc is None:
+                    got = R.concentration(res.contents, lig, 'mol', 'L')
+                    if abs(got - lower) > 0.3 * quantum_rel * now:
+                        viol(['C11', 'C03'], 'C11:a_real_dilution_is_skipped:few_stored_digits_of_solute', {'held': held, 'current_M': now, 'target_M': lower, 'got_M': got})
+                else:
+                    viol(['C11', 'C03'], f'C11:feasible_dilution_refused:{type(exc).__name__}', {'held': held, 'target_M': lower, 'exc': repr(exc)[:100]})
+                res, exc = attempt(lambda: tube.dilute(lig, f'{higher * 1e12:.6g} pmol/L', water))
+                if exc is None or not isinstance(exc, ValueError):
+                    viol(['C11', 'C03'], 'C03:target_above_the_current_concentration_accepted:few_stored_digits_of_solute', {'held': held, 'current_M': now, 'target_M': higher})
+            M.bucket(case['prop'] + '/edge/E30_an_unreachable_concentration_of_a_pure_enzyme')
+            eco = S.enzyme('EcoRI', rng.choice(['1000 U/ug', '100 U/ug', '2000 U/mg']))
+            vial = C('vial', initial_contents=[(eco, '500 U')])
+            for target in ('150 %w/w', '1000 %w/w', '5 g/g', '110 %w/w'):
+                res, exc = attempt(lambda: C.create_solution_from(vial, eco, target, water, '100 mL'))
+                if exc is None or not isinstance(exc, ValueError):
+                    viol(['C03', 'C12'], 'C03:unreachable_concentration:create_solution_from:' + ('accepted' if exc is None else type(exc).__name__), {'target': target, 'source': 'a vial of pure enzyme'})
+                r = pp.Recipe().uses(vial)
+                _, exc = attempt(lambda: (r.create_solution_from(vial, eco, target, water, '100 mL'), r.bake()))
+                if exc is None or not isinstance(exc, ValueError):
+                    viol(['C03', 'C12', 'C08'], 'C03:unreachable_concentration:Recipe.create_solution_from:' + ('accepted' if exc is None else type(exc).__name__), {'target': target})
+            M.bucket(case['prop'] + '/edge/E30_the_own_concentration_is_accepted')
+            glucose, igg = S.solid('glucose', 180.16), S.solid('IgG', 150000.0)
+            peg = S.liquid('PEG400', 400.0, 1.128)
+            stock = C.create_solution(glucose, water, concentration=rng.choice(['0.1 M', '0.25 M', '50 mM']), total_quantity='10 mL')
+            for unit in ('mmol/mol', 'g/mol', 'M', 'g/L', 'mg/g'):
+                own = f"{stock.get_concentration(glucose, unit)} {unit}"
+                for diluent in (water, dmso, peg, tween):
+                    res, exc = attempt(lambda: C.create_solution_from(stock, glucose, own, diluent, '1 mL'))
+                    if exc is not None:
+                        viol(['C12', 'C03', 'C18'], f'C12:own_reported_concentration_refused:{type(exc).__name__}', {'concentration': own, 'diluent': diluent.name, 'exc': repr(exc)[:100]})
+                        break
+                _, exc = attempt(lambda: stock.dilute(glucose, own, water))
+                if exc is not None:
+                    viol(['C11', 'C03', 'C18'], f'C11:dilute_to_the_own_reported_concentration_refused:{type(exc).__name__}', {'concentration': own, 'exc': repr(exc)[:100]})
+            vol = rng.choice(['15 mL', '7 mL', '3.3 mL', '0.9 mL'])
+            for k_ in range(6):
+                mm = rng.choice([25, 3.3, 410, 0.7, 120])
+                st = C.create_solution(salt, water, 'st', concentration=f'{mm} mM', total_quantity=rng.choice([vol, '15 mL', '2.7 mL']))
+                own = f"{st.get_concentration(salt, 'M')} M"
+                _, exc = attempt(lambda: st.dilute(salt, own, water))
+                if exc is not None:
+                    viol(['C18', 'C11', 'C03'], f'C11:dilute_to_the_own_reported_concentration_refused:{type(exc).__name__}', {'made_as': f'{mm} mM', 'asked': own, 'exc': repr(exc)[:100]})
+                    break
+            mixed = C.create_solution([salt, igg], water, concentration=['1 M', '2 mg/mL'], total_quantity=rng.choice(['10 uL', '25 uL', '100 uL']))
+            _, aliquot = C.transfer(mixed, C('aliquot'), '2 uL')
+            _, exc = attempt(lambda: C.create_solution_from(aliquot, salt, '1 M', water, '1 uL'))
+            if exc is not None:
+                viol(['C12', 'C03'], f'C12:own_concentration_refused:next_to_a_heavy_co_solute:{type(exc).__name__}', {'exc': repr(exc)[:100]})
+            st1 = C.create_solution(salt, water, concentration='1 M', total_quantity='100 mL')
+            dil = C.create_solution(salt, water, concentration='0.1 M', total_quantity='50 mL')
+            for tot in ('3 mL', '1.3 mL', '7 mL', '0.9 mL', '2.1 mL'):
+                res, exc = attempt(lambda: C.create_solution_from(st1, salt, '0.1 M', dil, tot))
+                if exc is not None:
+                    viol(['C12', 'C03'], f'C12:diluent_container_already_at_the_target_refused:{type(exc).__name__}', {'total': tot, 'exc': repr(exc)[:100]})
+                    break
+            M.note_nontrivial(case['prop'], ('E30', idx))
+        elif fam == 30:
+            # ---- E31
+            lys = S.enzyme('lysozyme', '200 U/mg')
+            M.bucket(case['prop'] + '/edge/E31_an_enzyme_stated_in_moles')
+            for q in ('5 mmol', '1 mol', '250 umol'):
+                res, exc = attempt(lambda: C('c', '10 mL', [(water, '1 mL'), (lys, q)]))
+                if exc is None:
+                    viol(['C14', 'C03', 'C06'], 'C14:amount_in_a_unit_that_does_not_measure_the_substance_accepted:constructor', {'quantity': q, 'stored': res.contents.get(lys)})
+                elif not isinstance(exc, ValueError):
+                    viol(['C14', 'C03'], f'C14:refusal_not_ValueError:enzyme_in_moles:{type(exc).__name__}', {'quantity': q})
+            r = pp.Recipe()
+            _, exc = attempt(lambda: (r.create_container('c', '10 mL', [(water, '1 mL'), (lys, '5 mmol')]), r.bake()))
+            if exc is None:
+                viol(['C14', 'C03', 'C08'], 'C14:amount_in_a_unit_that_does_not_measure_the_substance_accepted:Recipe.create_container', {'quantity': '5 mmol'})
+            M.bucket(case['prop'] + '/edge/E31_units_per_N_grams')
+            for n in rng.sample([3, 7, 9, 6, 11, 13, 30, 700], 4):
+                a, ea = attempt(lambda: S.enzyme('amylase', f'1 U/{n} g'))
+                b, eb = attempt(lambda: S.enzyme('amylase', f'{n} g/1 U'))
+                c_, ec = attempt(lambda: S.enzyme('amylase', f'2 mU/{2 * n} mg'))
+                if ea is not None or eb is not None or ec is not None:
+                    viol(['C14', 'C06'], 'C14:wellformed_specific_activity_refused', {'n': n, 'excs': [repr(e_)[:80] for e_ in (ea, eb, ec)]})
+                    continue
+                if not (a == b and a == c_):
+                    viol(['C06', 'C14'], 'C14:one_specific_activity_spelt_differently_is_another_substance', {'spellings': [f'1 U/{n} g', f'{n} g/1 U', f'2 mU/{2 * n} mg'], 'values': [a.specific_activity, b.specific_activity, c_.specific_activity]})
+                    continue
+                got = pp.Unit.convert(a, f'{n} kg', 'U')
+                if abs(got - 1000.0) > 1e-8:
+                    viol(['C06'], 'C06:wrong_factor:enzyme:g->U:activity_per_N_grams', {'spelling': f'1 U/{n} g', 'quantity': f'{n} kg', 'got_U': got, 'expected_U': 1000.0})
+            M.bucket(case['prop'] + '/edge/E31_nothing_where_a_string_or_a_solute_is_expected')
+            for label, fn in (('parse_concentration', lambda: pp.Unit.parse_concentration('')), ('create_solution_concentration', lambda: C.create_solution(salt, water, concentration='', total_quantity='10 mL')),
+                              ('create_solution_no_solute', lambda: C.create_solution([], water, concentration='1 M', total_quantity='10 mL')),
+                              ('create_solution_no_solute_quantity', lambda: C.create_solution([], water, quantity='1 g', total_quantity='10 mL')),
+                              ('dilute', lambda: C('b', '1 L', [(water, '10 mL'), (salt, '1 g')]).dilute(salt, '', water))):
+                _, exc = attempt(fn)
+                if exc is None or not isinstance(exc, ValueError):
+                    viol(['C14', 'C05', 'C03'], f'C14:refusal_not_ValueError:{label}:' + ('accepted' if exc is None else type(exc).__name__), {'exc': repr(exc)[:100]})
+            M.bucket(case['prop'] + '/edge/E31_trace_enzyme_stated_by_mass_in_a_total_by_mass')
+            hrp = S.enzyme('HRP', rng.choice(['5000 U/mg', '1000 U/mg', '250 U/mg']))
+            sa = R.specific_activity_of(hrp)
+            for conc, tot in (('0.1 pg/kg', '1 kg'), ('1e-14 %w/w', '1 kg'), ('0.2 pg/kg', '100 g'), ('1 pg/kg', '5 kg'), ('0.01 pg/g', '1 kg'), ('2 pg/L', '3 kg')):
+                res, exc = attempt(lambda: C.create_solution(hrp, water, concentration=conc, total_quantity=tot))
+                if exc is not None:
+                    continue            # (what is below the stored digit may be refused)
+                v, num, den = R.parse_concentration(conc)
+                got = R.concentration(res.contents, hrp, num, den)
+                stored_res = cf.q / sa / max(R.measure(res.contents, den), 1e-300) if num == 'g' else 0.0
+                if abs(got - v) > 1e-3 * v + 2 * stored_res:
+                    viol(['C05', 'C03'], 'C05:stated_concentration_not_met:trace_enzyme_by_mass', {'concentration': conc, 'total': tot, 'got': got, 'want': v, 'unit': f'{num}/{den}'})
+            M.note_nontrivial(case['prop'], ('E31', idx))
+        elif fam == 31:
+            # ---- E32
+            M.bucket(case['prop'] + '/edge/E32_a_selection_of_no_wells')
+            stock = C('stock', '10 mL', [(water, '5 mL')])
+            plate = pp.Plate('plate', '100 uL', rows=2, columns=3)
+            for label, sel in (('empty_list', lambda: plate[[]]), ('list_sliced_to_nothing', lambda: plate[['A:1', 'A:2']][2:])):
+                target, exc = attempt(sel)
+                if exc is not None:
+                    continue
+                res, exc = attempt(lambda: pp.Plate.transfer(stock, target, '1 uL'))
+                if exc is None and (res[0] is stock or res[1] is plate):
+                    viol(['C04'], 'C04:returned_object_is_the_argument_itself:transfer_into_no_wells', {'selection': label, 'source': res[0] is stock, 'plate': res[1] is plate})
+            waste = C('waste')
+            e_, exc_e = attempt(lambda: C.transfer(plate[[]], waste, '5 uL'))
+            r = pp.Recipe().uses(plate, waste)
+            b_, exc_b = attempt(lambda: (r.transfer(plate[[]], waste, '5 uL'), r.bake())[1])
+            if (exc_e is None) != (exc_b is None):
+                viol(['C08'], 'C08:bake_and_eager_disagree:transfer_out_of_no_wells', {'eager': repr(exc_e)[:100], 'bake': repr(exc_b)[:100]})
+            _, exc = attempt(lambda: plate[[]].get_substances())
+            if exc is not None:
+                viol(['C10', 'C08'], f'C10:get_substances_raised:{type(exc).__name__}:no_wells', {'exc': repr(exc)[:100]})
+            M.bucket(case['prop'] + '/edge/E32_recipe_create_solution_like_the_eager_call')
+            suc = S.solid('sucrose', 342.3)
+            eager = C.create_solution([salt, suc], water, concentration=['10 mM', '5 mM'], total_quantity='10 mL')
+            r = pp.Recipe()
+            made, exc = attempt(lambda: r.create_solution([salt, suc], water, concentration=['10 mM', '5 mM'], total_quantity='10 mL'))
+            if exc is None:
+                baked, exc = attempt(lambda: r.bake())
+                if exc is None and not any(o_ == eager for o_ in baked.values()):
+                    viol(['C08'], 'C08:baked_container_not_equal_to_the_eager_one:default_name', {'eager_name': eager.name, 'baked_names': [o_.name for o_ in baked.values()]})
+            for label, kw in (('quantity_None', {'concentration': '1 M', 'quantity': None, 'total_quantity': '10 mL'}), ('name_empty', {'concentration': '1 M', 'total_quantity': '10 mL', 'name': ''})):
+                _, exc_e = attempt(lambda: C.create_solution(salt, water, **kw))
+                r = pp.Recipe()
+                _, exc_b = attempt(lambda: (r.create_solution(salt, water, **kw), r.bake()))
+                if (exc_e is None) != (exc_b is None):
+                    viol(['C08'], f'C08:bake_and_eager_disagree:create_solution:{label}', {'eager': repr(exc_e)[:100], 'recipe': repr(exc_b)[:100]})
+            M.bucket(case['prop'] + '/edge/E32_plate_observers_dimension_default_and_duplicates')
+            brine = C('brine', initial_contents=[(water, '10 mL'), (salt, '2 mmol')])
+            _, filled = pp.Plate.transfer(brine, pp.Plate('p', '2 mL', rows=2, columns=3), rng.choice(['1 mL', '0.5 mL']))
+            import numpy as _np
+            vdu = cf.volume_display_unit() if callable(getattr(cf, 'volume_display_unit', None)) else getattr(cf, 'volume_display_unit', 'uL')
+            res, exc = attempt(lambda: (filled.get_volume(), filled.get_volume(vdu), float(_np.sum(filled.get_volumes()))))
+            if exc is None and (abs(res[0] - res[1]) > 1e-9 * abs(res[1]) or abs(res[0] - res[2]) > 1e-6 * abs(res[2]) + 1e-3):
+                viol(['C10', 'C18'], 'C10:plate_get_volume_default_unit_is_not_the_configured_one', {'configured': vdu, 'default_answer': res[0], 'in_configured_unit': res[1], 'sum_of_get_volumes': res[2]})
+            once, e1 = attempt(lambda: filled.get_moles([salt], 'umol'))
+            twice, e2 = attempt(lambda: filled.get_moles([salt, salt], 'umol'))
+            if e1 is None and e2 is None and not _np.allclose(once, twice, rtol=1e-12):
+                viol(['C10'], 'C10:a_substance_listed_twice_is_counted_twice', {'once': _np.asarray(once).tolist()[0], 'twice': _np.asarray(twice).tolist()[0]})
+            for label, fn in (('get_moles_in_L', lambda: filled.get_moles(salt, 'L')), ('get_volumes_in_mol', lambda: filled.get_volumes(salt, 'mol')), ('get_moles_in_g', lambda: filled[:].get_moles(salt, 'mg'))):
+                res, exc = attempt(fn)
+                if exc is None and float(_np.sum(res)) > 0:
+                    viol(['C10', 'C06'], f'C10:answered_in_another_dimension:{label}', {'answer': _np.asarray(res).tolist()[0]})
+            M.note_nontrivial(case['prop'], ('E32', idx))
